@@ -228,6 +228,28 @@ def run_queries(shard):
     return part.result()
 
 
+def run_dynamic(shard):
+    """quantifiers over the instances of dynamic templates in expressions and SMC queries (lib/dynspace.py)"""
+    import dynspace as DS
+    part = engine.Part()
+    w = engine.worker("fast")
+    i, n = shard
+    exprs, queries = DS.dynamic_items()
+    ex = [t for k, t in enumerate(exprs) if k % n == i]
+    for text, r in zip(ex, call(w, "exprs", DS.DYN_CTX, ex, typecheck=True)):
+        part.count()
+        rp = {"op": "exprs", "ctx": DS.DYN_CTX, "items": [text], "print": True}
+        if not engine.check_crash(part, PID, r, text, rp):
+            judge(part, "dynamic-expr", text, r, rp, text.split("(")[0].strip() or "paren")
+    qs = [t for k, t in enumerate(queries) if k % n == i]
+    for text, r in zip(qs, call(w, "queries", DS.DYN_CTX, qs)):
+        part.count()
+        rp = {"op": "queries", "ctx": DS.DYN_CTX, "items": [text], "print": True}
+        if not engine.check_crash(part, PID, r, text, rp):
+            judge(part, "dynamic-query", text, r, rp, text.split("(")[0].strip())
+    return part.result()
+
+
 def main():
     rep = engine.Report(PID, "exploration",
                         "every tree of the C02 enumeration (all constructors; all parent/slot/child triples%s) that the library "
@@ -244,6 +266,8 @@ def main():
         rep.merge(res)
     run_literals(rep)
     for res in engine.pmap(run_queries, [(i, n) for i in range(n)]):
+        rep.merge(res)
+    for res in engine.pmap(run_dynamic, [(i, n) for i in range(n)]):
         rep.merge(res)
     acc = sorted(k[9:] for k in list(rep.extra) if k.startswith("qform_ok:"))
     rep.extra["query_forms_accepted"] = {k: rep.extra.pop("qform_ok:" + k) for k in acc}
